@@ -25,7 +25,7 @@ ID = "C03"
 LEVEL = "exploration"
 # order-dependent TDVP integration error stays far below this for the workloads generated here
 # (calibrated: see evidence 'calibration_max_discrepancy'); a misdirected per-atom drive moves >= 0.05
-TOL = 2e-4
+TOL = 2e-3
 RULE = (
     "One case = one (scenario, internal order / relabelling / resume) comparison against the identity-order run of the same "
     "scenario. Scenarios have distinguishable atoms (local-channel targets, DMM weights, SLM masks, irregular geometry, dark "
@@ -39,7 +39,7 @@ COMPONENTS = {
 }
 PROBES = ["non_identity_order_with_per_atom_drive", "relabelled_register", "reinserted_register", "resume_under_non_identity_order", "dark_atoms_present", "slm_mask_present", "dmm_present", "pi_pulse_bitstring", "non_permutable_observable_safeguard", "real_optimiser_order", "user_initial_state"]
 ASSUMPTIONS = [
-    "comparison tolerance 2e-4 absolute on occupations / correlations, 2e-4 x |H| on energies and 2e-4 x |H|^2 on energy second moment / variance (|H| = an upper bound on the energy scale computed from the scenario); workloads keep the order-dependent TDVP error orders of magnitude below it (bond dimension uncapped, precision 1e-8, E*dt <= 0.05) and a misdirected per-atom drive changes some occupation by >= 0.05",
+    "comparison tolerance 2e-3 absolute on occupations / correlations, 2e-3 x |H| on energies and 2e-3 x |H|^2 on energy second moment / variance (|H| = an upper bound on the energy scale computed from the scenario, SLM detuning included); the two-site TDVP projection error depends on the site order (the largest occupation discrepancy seen over seeds 0-8 was 7e-5, with an SLM mask), a misdirected per-atom drive moves an occupation by >= 0.05; workloads keep the order-dependent TDVP error orders of magnitude below it (bond dimension uncapped, precision 1e-8, E*dt <= 0.05) and a misdirected per-atom drive changes some occupation by >= 0.05",
     "bit strings are compared exactly only in the pi-pulse workload (deterministic outcome); elsewhere through the occupations of the same run",
 ]
 
@@ -51,30 +51,46 @@ def plan(tier: str) -> dict:
 
 
 def gen_case(tape: Tape, tier: str) -> dict:
-    kind = tape.weighted(["local", "dmm", "slm", "pi", "geometry", "dark", "initial"], [0.25, 0.15, 0.12, 0.18, 0.1, 0.1, 0.1], "drive_kind")
+    kind = tape.weighted(["local", "dmm", "slm", "pi", "geometry", "dark", "initial", "blockade"], [0.22, 0.13, 0.14, 0.15, 0.06, 0.1, 0.08, 0.12], "drive_kind")
     n = tape.int(2, 5 if tier == "quick" else 6, "n_atoms")
-    if kind in ("slm", "dark"):
+    if kind in ("slm", "dark", "blockade"):
         n = max(n, 3)
     # irregular geometry, atoms >= 8.5 um apart (U <= 14 rad/us)
     pts: list[tuple[float, float]] = []
     tries = 0
-    box = 10.0 + 5.0 * n
+    close_pair = kind == "blockade" or (kind == "slm" and tape.bool(0.7, "slm_close_pair"))
+    box = (10.0 + 5.0 * n) if not close_pair else (30.0 + 10.0 * n)
     while len(pts) < n:
         x, y = round(tape.float(0, box, "x"), 2), round(tape.float(0, box, "y"), 2)
         tries += 1
-        if all(math.hypot(x - a, y - b) >= 8.5 for a, b in pts):
+        if all(math.hypot(x - a, y - b) >= (8.5 if not close_pair else 15.0) for a, b in pts):
             pts.append((x, y))
         elif tries > 300:
-            pts.append((max(p[0] for p in pts) + 9.0, 0.0))
+            pts.append((max(p[0] for p in pts) + (9.0 if not close_pair else 16.0), 0.0))
+    pair = None
+    if close_pair:
+        # one strongly interacting pair (8.6-9.2 um, U = 9..13 rad/us) among otherwise distant atoms: which two atoms
+        # interact is then clearly visible in the occupations (blockade), so a mis-permuted interaction matrix shows
+        i = tape.int(0, n - 1, "pair_i")
+        j = (i + 1 + tape.int(0, n - 2, "pair_j")) % n
+        ang = tape.float(0.0, 2 * math.pi, "pair_angle")
+        r = tape.float(8.6, 9.2, "pair_dist")
+        for k_try in range(24):
+            a_ = ang + k_try * (math.pi / 12)
+            cand = (round(pts[i][0] + r * math.cos(a_), 2), round(pts[i][1] + r * math.sin(a_), 2))
+            if all(math.hypot(cand[0] - px, cand[1] - py) >= 14.0 for m, (px, py) in enumerate(pts) if m not in (i, j)):
+                pts[j] = cand
+                pair = (i, j)
+                break
     labels = [f"q{i}" for i in range(n)]
     atoms = [[labels[i], pts[i][0], pts[i][1]] for i in range(n)]
-    T = tape.int(20, 90, "T")
-    dt = float(tape.choice([1, 2, 3], "dt"))
+    T = tape.int(20, 90, "T") if not close_pair else tape.int(70, 100, "T")
+    dt = float(tape.choice([1, 2, 3], "dt")) if not close_pair else float(tape.choice([2, 3], "dt"))
     ops: list[dict] = []
     scn: dict[str, Any] = {"atoms": atoms, "xy": False, "modulation": False, "has_local": False, "local_init": None, "dmm": None, "slm": None, "ops": ops}
     cfg_extra: dict[str, Any] = {}
-    g_amp = round(tape.float(2.0, 8.0, "g_amp"), 3)
-    g_det = round(tape.float(-3.0, 3.0, "g_det"), 3)
+    g_amp = round(tape.float(2.0, 8.0, "g_amp"), 3) if not close_pair else round(tape.float(7.0, 10.0, "g_amp"), 3)
+    g_det = round(tape.float(-3.0, 3.0, "g_det"), 3) if not close_pair else round(tape.float(-1.0, 1.0, "g_det"), 3)
     if kind == "pi":
         # pi pulse on one atom through the local channel, no interaction: the outcome is deterministic
         tgt = tape.int(0, n - 1, "pi_target")
@@ -102,6 +118,13 @@ def gen_case(tape: Tape, tier: str) -> dict:
     if kind == "slm":
         k = tape.int(1, n - 2, "slm_k")
         scn["slm"] = [labels[i] for i in tape.permutation(n, "slm_who")[:k]]
+        if pair is not None:
+            scn["slm"] = [labels[pair[0]]] + [l for l in scn["slm"] if l not in (labels[pair[0]], labels[pair[1]])][: k - 1]
+        # the mask lasts as long as the first global pulse: a second pulse makes the interaction matrix switch from
+        # "masked" to "full" in mid-run (Hamiltonian rebuilt at that step); with a close pair of which one atom is
+        # masked, the blockade of that pair must switch on exactly then
+        if tape.bool(0.7, "slm_second_pulse") or pair is not None:
+            ops.append({"op": "pulse", "ch": "g", "dur": tape.int(60, 90, "T_after_slm"), "amp": {"k": "const", "v": round(tape.float(7.0, 10.0, "g_amp2"), 3)}, "det": {"k": "const", "v": round(tape.float(-1.0, 1.0, "g_det2"), 3)}, "phase": 0.0})
     if kind == "dark":
         cfg_extra["noise"] = {"state_prep_error": round(tape.float(0.2, 0.5, "prep"), 2), "runs": 1, "samples_per_run": 1}
     if kind == "initial":
@@ -191,7 +214,13 @@ def energy_scale(case: dict) -> float:
             drive += max(vals or [0.0]) * 1.5
         elif o["op"] == "dmm":
             drive += abs(o["wave"].get("v", 0.0))
-    return max(1.0, n * drive + u)
+    slm = 0.0
+    if case["scn"].get("slm"):
+        # pulser implements the SLM mask as a detuning of -10 x (max amplitude of the first global pulse) on the masked atoms
+        first = next((o for o in case["scn"]["ops"] if o["op"] == "pulse" and o["ch"] == "g"), None)
+        if first is not None:
+            slm = 10.0 * max([abs(first["amp"].get("v", 0.0)), abs(first["amp"].get("a", 0.0)), abs(first["amp"].get("b", 0.0))] + [abs(v) for v in first["amp"].get("vals", [])]) * len(case["scn"]["slm"])
+    return max(1.0, n * drive + u + slm)
 
 
 def tolerances(case: dict) -> dict:
